@@ -71,3 +71,21 @@ Fixpoint bad_from (l : list bool) (i : N) (room : nat) : list N :=
 Definition first_bad (l : list bool) : list N := bad_from l 0 20.
 Definition count_true (l : list bool) : N := fold_left (fun a (b : bool) => if b then N.succ a else a) l 0.
 Definition count_all {A} (l : list A) : N := fold_left (fun a _ => N.succ a) l 0.
+
+(* cases are evaluated chunk by chunk (no large list is ever kept as a term): per chunk the number
+   of cases, the number of failing ones and the global indices of the first failing ones *)
+Definition chunk_result := (N * N * list N)%type.
+Definition eval_chunk (offset : N) (verdicts : list bool) : chunk_result :=
+  (count_all verdicts, count_true verdicts, bad_from verdicts offset 20).
+Definition merge_chunks (rs : list chunk_result) : chunk_result :=
+  fold_left (fun (acc r : chunk_result) =>
+               let '(n, b, l) := acc in let '(n', b', l') := r in
+               (n + n', b + b', firstn 20 (l ++ l'))) rs (0, 0, []).
+Definition chunk_total (r : chunk_result) : N := fst (fst r).
+Definition chunk_bad (r : chunk_result) : N := snd (fst r).
+Definition chunk_first (r : chunk_result) : list N := snd r.
+Definition route_chunk (shapes : list shape_t) (now : Z) (offset : N) (key : string) (webui : N)
+           (cs : list route_case) : chunk_result :=
+  let r := find_row key in eval_chunk offset (map (route_bad shapes now webui r) cs).
+Definition gate_chunk (shapes : list shape_t) (now : Z) (offset : N) (cs : list gate_case) : chunk_result :=
+  eval_chunk offset (map (gate_bad shapes now) cs).
